@@ -402,6 +402,20 @@ def run_c17(tier, seed, wd, info, verdict, with_nonpeers=False):
         calls += [call_of(m, TICK) for m in follow]
         scs.append(dict(id="C17-%d" % k, ids=[1, 2, 3], n=3, t=2, initiator=3, account="DW/s1", generate=False, calls=calls, timeout_ms=TIMEOUT))
     by = run_parallel(scs, wd, "c17", workers=NCPU)
+    # the same message sequences against clusters of REAL dirk binaries: every message is sent over TLS with the caller's certificate
+    # to the instance's own gRPC receiver; the generation timeout comes from the binary's configuration file
+    ticky = [s_ for s_ in scs if any(c_.get("msg") == "tick" for c_ in s_["calls"])]
+    plain = [s_ for s_ in scs if s_ not in ticky]
+    pick = (rnd.sample(ticky, min(len(ticky), 6)) + rnd.sample(plain, min(len(plain), 18))) if tier == "quick" else (ticky[:60] + rnd.sample(plain, min(len(plain), 240)))
+    bscs = [dict(s_, id=s_["id"] + "-bin") for s_ in pick]
+    chunks = [bscs[i::8] for i in range(8) if bscs[i::8]]
+    with ThreadPoolExecutor(max_workers=8) as ex:
+        bouts = list(ex.map(lambda a: run_dkgdrv(a[1], wd, "c17bin%d" % a[0], dirk=build_dirk()), enumerate(chunks)))
+    for evs_, rc_, err_ in bouts:
+        if rc_ != 0:
+            raise Inconclusive("dkgdrv (message sequences) against dirk binaries exited %s: %s" % (rc_, err_[-400:]))
+        by.update(split_scenarios(evs_))
+    scs = scs + bscs
     lines, index = [], []
     ncalls = 0
     for sc in scs:
@@ -424,7 +438,7 @@ def run_c17(tier, seed, wd, info, verdict, with_nonpeers=False):
         verdict.violation("%s:%s" % (violated, extra[1][:120]),
                           "message sequence %s on the real process service: rejected by SessionTrace invariant %s %s" % (sid, violated, extra[1]),
                           dict(scenario=sc, trace=seg, invariant=violated, module="SessionTrace"))
-    return dict(transitions_in_table=len(table), transitions_replayed=len(scs), unreachable_rows=unreachable, calls=ncalls, trace_events=len(lines),
+    return dict(transitions_in_table=len(table), transitions_replayed=len(scs), of_which_against_dirk_binaries=len(bscs), unreachable_rows=unreachable, calls=ncalls, trace_events=len(lines),
                 sample=lines[index[0][0] - 1:index[0][1]][:10])
 
 
